@@ -29,7 +29,7 @@ import (
 func init() {
 	simkit.Register(&simkit.Property{
 		ID: "C15", Level: "exploration", Bubble: true, Run: runC15,
-		Rule: "World D: one real syncer per run (RegistrySyncer, MultiEventSyncer with the EventTriggerRegistered and trigger processors, Gnosis SequencerSyncer) with the real ethclient + abigen bindings on simeth and sqlc/pgx on pgsim. A generated block tree (real parent hashes; ABI-encoded contract events incl. inadmissible ones: eon or expiry > MaxInt64, gas limit > MaxInt64, invalid trigger definitions; re-registration of a key on the other fork) is observed through a Chooser-driven head sequence: advance, repeat, skip ahead 2-5 blocks, one jump of > 10 000 blocks (several RPC ranges), step back, forks of depth 0..10 relative to the synced block (new branch delivered block by block so that the first new head above the synced block is synced+1: the statement's precondition). Faults: rpc.eth_error per RPC, db.stmt_error / db.conn_error per statement, targeted statement failure inside the first range of the long jump, crash of the syncer (everything fails until Sync returns, connections killed, syncer re-created) at a chosen request. Oracle at EVERY pgsim commit that touches the position table and after every Sync return / restart: if the stored (number, hash) is on simeth's canonical chain, the event table equals the reference set of admissible canonical events from the sync start to that number (none missing, none from abandoned blocks, none duplicated). Non-trivial = a run with >=1 reorg with an event on the abandoned branch; distinct = distinct trace hashes among those.",
+		Rule: "World D: one real syncer per run (RegistrySyncer, MultiEventSyncer with the EventTriggerRegistered and trigger processors, Gnosis SequencerSyncer) with the real ethclient + abigen bindings on simeth and sqlc/pgx on pgsim. A generated block tree (real parent hashes; ABI-encoded contract events incl. inadmissible ones: eon or expiry > MaxInt64, gas limit > MaxInt64, invalid trigger definitions; re-registration of a key on the other fork) is observed through a Chooser-driven head sequence: advance, repeat, skip ahead 2-5 blocks, one jump of > 10 000 blocks (several RPC ranges), step back, forks of depth 0..10 relative to the synced block (new branch delivered block by block so that the first new head above the synced block is synced+1: the statement's precondition). Faults: rpc.eth_error per RPC, rpc.eth_unknown_block (a block lookup answered with null: lagging node; also targeted at the first block lookup of the long jump), db.stmt_error / db.conn_error per statement, targeted statement failure inside the first range of the long jump, crash of the syncer (everything fails until Sync returns, connections killed, syncer re-created) at a chosen request. Oracle at EVERY pgsim commit that touches the position table and after every Sync return / restart: if the stored (number, hash) is on simeth's canonical chain, the event table equals the reference set of admissible canonical events from the sync start to that number (none missing, none from abandoned blocks, none duplicated). Non-trivial = a run with >=1 reorg with an event on the abandoned branch; distinct = distinct trace hashes among those.",
 		Assumptions: []string{"the canonical chain does not change between two RPCs of one Sync call (the statement quantifies over failures between steps; rpc.eth_reorg_between_calls is not injected)", "contracts do not emit the same registration key twice on one chain"},
 		Real:        []string{"shutterservice.RegistrySyncer", "shutterservice.MultiEventSyncer + EventTriggerRegisteredEventProcessor + TriggerProcessor", "gnosis.SequencerSyncer", "medley.GetSyncRanges", "ethclient.Client", "abigen bindings (shutterregistry, shuttereventtriggerregistryv1, sequencer)", "sqlc queries, pgx"},
 		Stub:        []string{"Ethereum node (simeth: block tree, eth_getLogs filter semantics, header RPCs)", "PostgreSQL (pgsim)"},
@@ -383,7 +383,7 @@ func runC15(r *simkit.Run) {
 	cw.mkSyncer()
 	faulty := c.Chance(700, "faults-enabled")
 	if faulty {
-		w.faults = dFaults{ethErr: c.Intn(60, "eth-err-rate"), stmtErr: c.Intn(60, "stmt-err-rate"), connErr: c.Intn(20, "conn-err-rate")}
+		w.faults = dFaults{ethErr: c.Intn(60, "eth-err-rate"), stmtErr: c.Intn(60, "stmt-err-rate"), connErr: c.Intn(20, "conn-err-rate"), ethNull: c.Intn(40, "eth-unknown-block-rate")}
 	}
 	r.Eventf("syncer=%s start=%d faults=%+v", kind, cw.start, w.faults)
 	r.Sample["config"] = fmt.Sprintf("syncer=%s start=%d faults=%+v", kind, cw.start, w.faults)
@@ -558,9 +558,14 @@ func runC15(r *simkit.Run) {
 					return false
 				}
 			}
+			if faulty && w.failNextDB == nil && c.Chance(500, "unknown-block-in-first-range") {
+				// the node does not know the end block of the first range yet (null answer)
+				w.nullNextEth = func(method string) bool { return method == "eth_getBlockByNumber" }
+			}
 			r.Probe("long-jump")
 			deliver(head, head)
 			w.failNextDB = nil
+			w.nullNextEth = nil
 		case 4: // step back: an ancestor is delivered as head (node still on the same chain)
 			back := c.Range(1, 3, "step-back")
 			b := head
